@@ -104,7 +104,22 @@ GirthEvOK(ev) ==
           /\ (ev.printed = 4 <=> ev.four_cycle)
           /\ (ev.printed > 6 => ev.cyc6 = <<>>)
 
-EvOK(ev) == CASE ev.e = "Girth" -> GirthEvOK(ev) [] ev.e = "Gen" -> GenOK(ev) [] ev.e = "Construct" -> ConstructOK(ev) [] ev.e = "Sys" -> SysEvOK(ev)
+\* ber with an outer code (t = 2) and both files, frame outcomes scripted (1 and 3 systematic bit errors alternately, per decoder):
+\* one row per Eb/N0 in each file; LDPC-only rows count EVERY frame as a frame error; outer-code rows only the 3-error frames, and
+\* stop exactly on the target; both files describe the same frames
+BerInOK(ev) ==
+  /\ ev.o = "ok"
+  /\ Len(ev.lines) = ev.npoints /\ Len(ev.lines_ldpc) = ev.npoints
+  /\ \A p \in 1..ev.npoints :
+       LET B == ev.lines[p]  L == ev.lines_ldpc[p] IN
+       /\ B.ebn0_c = 4000 + 100 * (p - 1) /\ L.ebn0_c = B.ebn0_c
+       /\ B.frames = L.frames /\ B.frames >= 1
+       /\ L.ferr = L.frames /\ L.berr >= L.frames /\ L.berr <= 3 * L.frames           \* LDPC only: every frame has 1 or 3 bit errors
+       /\ B.ferr = ev.target /\ B.berr = 3 * B.ferr /\ B.ferr < B.frames                \* outer code: only the 3-error frames remain
+       /\ L.berr = 3 * B.ferr + (L.frames - B.ferr)                                      \* the same frames in both files
+       /\ BerLineOK(B, ev.k, ev.target, TRUE) /\ BerLineOK(L, ev.k, ev.target, FALSE)
+
+EvOK(ev) == CASE ev.e = "BerIn" -> BerInOK(ev) [] ev.e = "Girth" -> GirthEvOK(ev) [] ev.e = "Gen" -> GenOK(ev) [] ev.e = "Construct" -> ConstructOK(ev) [] ev.e = "Sys" -> SysEvOK(ev)
               [] ev.e = "Encode" -> EncodeEvOK(ev) [] ev.e = "Ber" -> BerEvOK(ev) [] OTHER -> FALSE
 
 Init == l = 1
